@@ -24,7 +24,7 @@ def run(chk, replay=None):
     hx = build_hx('hx_roundtrip', lib)
     leandir, ok, out, changed = standard_lean(chk, 'C14')
     chk.assumptions += [
-        'the Lean part covers the decisions of the transformation (interface merge, liter / meter respelling, version gate); the XML surgery (namespaces, group / relationship_ref, map_components, hoisting of component-level units, cmeta:id) is checked on the implementation through matched pairs: a generated 2.0 document and its mechanical rewriting to 1.0 / 1.1 syntax (pygen/legacy.py)',
+        'the Lean part covers the decisions of the transformation (interface merge, liter / meter respelling, version gate, which groups describe encapsulation); the XML surgery (namespaces, group / relationship_ref, map_components, hoisting of component-level units, cmeta:id) is checked on the implementation through matched pairs: a generated 2.0 document and its mechanical rewriting to 1.0 / 1.1 syntax (pygen/legacy.py)',
         'not expressible in 1.x and therefore not generated: resets; imports in 1.0; the id of a 1.x group is not taken as encapsulation id, the id of a 1.x connection element is dropped (the id of map_components becomes the connection id): both normalised away',
         'memory-level behaviour of the libxml2 namespace surgery is outside this check']
     chk.cov['trusted_base'] += ['harness/hx_roundtrip.cpp + lean/Cellml/Engine/Legacy.lean', 'pygen/docs.py, pygen/legacy.py (rewriter)']
@@ -61,6 +61,15 @@ def run(chk, replay=None):
                 o = real(DOC % (NSV[v], 'second', ''), None if strict == '1' else 'permissive')
                 loaded = '1' if (o and '(var #76' in sec(o, 'D0', 'I0')) else '0'
                 lines.append('(gate %s %s)' % (strict, v)); expect.append(loaded)
+        # groups: every sequence of up to three relationship_ref elements over a few relationship values (none = no attribute)
+        rvals = ['encapsulation', 'containment', 'Encapsulation', 'encapsulation ', '', None]
+        gseqs = [[]] + [[a] for a in rvals] + [list(p) for p in itertools.product(rvals, repeat=2)] + ([list(p) for p in itertools.product(rvals[:4] + [None], repeat=3)] if chk.tier == 'thorough' else [list(p) for p in itertools.permutations(['encapsulation', 'containment', None], 3)])
+        for gs in gseqs:
+            refs = ''.join('<relationship_ref%s%s/>' % ('' if v is None else ' relationship="%s"' % v, ' name="n%d"' % i if v != 'encapsulation' else '') for i, v in enumerate(gs))
+            doc = '<?xml version="1.0" encoding="UTF-8"?>\n<model xmlns="%s" name="m"><component name="a"/><component name="b"/><group>%s<component_ref component="a"><component_ref component="b"/></component_ref></group></model>\n' % (NSV[rng.choice(['10', '11'])], refs)
+            o = real(doc, 'permissive')
+            nested = '1' if (o and re.search(r'^  \(component #62 ', sec(o, 'D0', 'I0'), re.M)) else '0'
+            lines.append('(group %s)' % ' '.join('_' if v is None else '#' + v.encode().hex() for v in gs)); expect.append(nested)
         model = run_lines(drv, ['legacy'], lines)[1] if os.path.exists(drv) else [''] * len(lines)
         stats['decision_cases'] = len(lines)
         for l, e, m in zip(lines, expect, model):
@@ -116,4 +125,4 @@ def run(chk, replay=None):
     if not oracle:
         for what, l in corr[:3]:
             chk.violation('legacy decision model and parser disagree (correspondence `legacy` broken): ' + what,
-                          {'kind': 'correspondence', 'engine': 'legacy', 'line': l, 'why': what, 'theorem': 'Cellml.Props.C14.merge_spec'}, False)
+                          {'kind': 'correspondence', 'engine': 'legacy', 'line': l, 'why': what, 'theorem': 'Cellml.Props.C14.merge_spec / encapsulation_iff'}, False)
